@@ -178,6 +178,17 @@ func init() {
 				p1, p2 := universeObjs[idx/len(universe)], universe[idx%len(universe)]
 				judgeCompose(c, v5Compose, p1, p2, []string{`{}`, `{"a":{"a":{"a":5,"b":6},"b":7},"b":{"c":8}}`, `{"a":[1],"b":"s"}`})
 			}},
+			{Name: "patches-sharing-a-deep-path", Exhaustive: true, Count: func(core.Tier) int { return len(deepDepths) }, Run: func(c *core.Ctx, idx int) {
+				d := deepDepths[idx]
+				if c.Tier != core.Thorough && d > 1025 && d != 2000 && d != 5001 {
+					return // (three merges and a composition per document, each quadratic in the depth)
+				}
+				p1 := deepWrap(d, `{"x":1,"y":{"z":2,"q":null},"t":"s"}`)
+				p2 := deepWrap(d, `{"y":{"w":3,"z":null},"k":null,"n":{"m":null}}`)
+				docs := []string{deepWrap(d, `{"x":0,"k":5,"y":{"q":1,"w":0}}`), `{}`, deepWrap(d/2+1, `7`)}
+				judgeCompose(c, v5Compose, p1, p2, docs)
+				c.Count("deep:cases")
+			}},
 			{Name: "colliding-patches", Count: n(40000, 1000000), Run: func(c *core.Ctx, idx int) {
 				p1T := prof.Object(c.R, 1+c.R.Intn(3))
 				var p2T string
